@@ -52,6 +52,7 @@ class Interp:
         self.loop_specs = loop_specs or {}
         self.axioms = list(axioms or [])
         self.timeout_ms = timeout_ms
+        self.feas_timeout_ms = 300
         self.seed = seed
         self._enum_cache = {}
         self._fresh = itertools.count()
@@ -67,13 +68,17 @@ class Interp:
         self.solver = z3.Solver()
         self.solver.set("timeout", self.timeout_ms)
         self.solver.set("random_seed", self.seed)
+        self.qf_solver = z3.Solver()  # quantifier-free part of the path condition: fast feasibility pre-check
+        self.qf_solver.set("timeout", 1000)
+        self.has_quant = False
         for a in self.axioms:
-            self.solver.add(a)
+            self._add(a)
         self.side = []  # Obligation results on this path
         self.depth = 0
         self._fresh = itertools.count()
         self.solver_time = 0.0
         self.ghost = {}
+        self.call_stack = []
 
     def fresh_int(self, hint="v"):
         return z3.Int(f"{hint}!{next(self._fresh)}")
@@ -95,10 +100,31 @@ class Interp:
         if z3.is_false(cond):
             raise PathAbort()
         self.pc.append(cond)
-        self.solver.add(cond)
+        self._add(cond)
 
-    def _check(self, *assumptions):
+    def _add(self, cond):
+        self.solver.add(cond)
+        if _has_quantifier(cond):
+            self.has_quant = True
+        else:
+            self.qf_solver.add(cond)
+
+    def _feasible(self, c):
+        """May ``c`` hold on this path?  Sound over-approximation: 'False' only on an unsat answer."""
         t = time.time()
+        try:
+            if self.qf_solver.check(c) == z3.unsat:
+                return False
+            if not self.has_quant:
+                return True
+            self.solver.set("timeout", self.feas_timeout_ms)
+            return self.solver.check(c) != z3.unsat
+        finally:
+            self.solver_time += time.time() - t
+
+    def _check(self, *assumptions, proof=False):
+        t = time.time()
+        self.solver.set("timeout", self.timeout_ms if proof else self.feas_timeout_ms)
         r = self.solver.check(*assumptions)
         self.solver_time += time.time() - t
         return r
@@ -112,7 +138,7 @@ class Interp:
                 continue
             if c is False:
                 continue
-            if self._check(c) != z3.unsat:
+            if self._feasible(c):
                 feas.append(i)
         if not feas:
             raise PathAbort()
@@ -127,7 +153,7 @@ class Interp:
         c = conds[choice]
         if c is not True:
             self.pc.append(c)
-            self.solver.add(c)
+            self._add(c)
         return choice
 
     def branch(self, cond):
@@ -149,7 +175,7 @@ class Interp:
         if cond is False:
             cond = z3.BoolVal(False)
         t = time.time()
-        r = self._check(z3.Not(cond))
+        r = self._check(z3.Not(cond), proof=True)
         dt = time.time() - t
         if r == z3.unsat:
             self.side.append(Obligation(name, "unsat", seconds=dt, note=note))
@@ -429,6 +455,23 @@ class Interp:
         if isinstance(a, float) or isinstance(b, float):
             return {"<": a < b, "<=": a <= b, ">": a > b, ">=": a >= b}[op]
         raise PyExc("TypeError", f"'{op}' not supported between {type(a).__name__} and {type(b).__name__}")
+
+
+def _has_quantifier(e, _seen=None):
+    if not isinstance(e, z3.ExprRef):
+        return False
+    seen = set() if _seen is None else _seen
+    stack = [e]
+    while stack:
+        x = stack.pop()
+        if z3.is_quantifier(x):
+            return True
+        i = x.get_id()
+        if i in seen:
+            continue
+        seen.add(i)
+        stack.extend(x.children())
+    return False
 
 
 def _z3i(v):
